@@ -49,8 +49,11 @@ func MakeNfs(d disk.Disk) *Nfs {
 
 	log := obj.MkLog(d) // runs recovery
 
-	i := readRootInode(super)
-	if i.Kind == 0 { // make a new file system?
+	i := readRootInode(super, log)
+	// A root without "." and ".." means that an earlier format did not
+	// finish (crash before makeRootDir committed): format again.
+	format := i.Kind == 0 || i.Size == 0
+	if format { // make a new file system?
 		makeFs(super)
 	}
 
@@ -61,7 +64,7 @@ func MakeNfs(d disk.Disk) *Nfs {
 		Unstable: true,
 		verf:     mkWriteVerf(),
 	}
-	if i.Kind == 0 {
+	if format {
 		nfs.makeRootDir()
 	}
 	return nfs
@@ -108,6 +111,8 @@ func makeFs(super *super.FsSuper) {
 	rootbuf.WriteDirect(super.Disk)
 
 	markAlloc(super, super.DataStart(), super.MaxBnum())
+	// the journal must not get ahead of these direct writes
+	super.Disk.Barrier()
 }
 
 func markAlloc(super *super.FsSuper, n common.Bnum, m common.Bnum) {
@@ -145,10 +150,10 @@ func markAlloc(super *super.FsSuper, n common.Bnum, m common.Bnum) {
 	super.Disk.Write(uint64(super.BitmapInodeStart()), blk2)
 }
 
-func readRootInode(super *super.FsSuper) *inode.Inode {
+// read through the log: the committed root may not be installed yet
+func readRootInode(super *super.FsSuper, log *obj.Log) *inode.Inode {
 	addr := super.Inum2Addr(common.ROOTINUM)
-	blk := super.Disk.Read(uint64(addr.Blkno))
-	buf := buf.MkBufLoad(addr, common.INODESZ*8, blk)
+	buf := log.Load(addr, common.INODESZ*8)
 	i := inode.Decode(buf, common.ROOTINUM)
 	return i
 }
